@@ -6,10 +6,12 @@ import (
 	"fmt"
 
 	"github.com/tellor-io/layer/x/oracle/types"
+	regtypes "github.com/tellor-io/layer/x/registry/types"
 
 	errorsmod "cosmossdk.io/errors"
 
 	sdk "github.com/cosmos/cosmos-sdk/types"
+	sdkerrors "github.com/cosmos/cosmos-sdk/types/errors"
 )
 
 // UpdateCyclelist updates the cyclelist with the provided list of queryData.
@@ -21,6 +23,20 @@ func (k msgServer) UpdateCyclelist(ctx context.Context, req *types.MsgUpdateCycl
 		return nil, errorsmod.Wrapf(types.ErrInvalidSigner, "invalid authority; expected %s, got %s", k.keeper.GetAuthority(), req.Authority)
 	}
 
+	// the end blocker reads the current cycle list query in every block: an empty list, or an entry
+	// whose query type has no registered data spec, would make it fail
+	if len(req.Cyclelist) == 0 {
+		return nil, errorsmod.Wrapf(sdkerrors.ErrInvalidRequest, "cyclelist cannot be empty")
+	}
+	for _, queryData := range req.Cyclelist {
+		queryType, _, err := regtypes.DecodeQueryType(queryData)
+		if err != nil {
+			return nil, errorsmod.Wrapf(sdkerrors.ErrInvalidRequest, "invalid query data in cyclelist: %v", err)
+		}
+		if _, err := k.keeper.GetDataSpec(ctx, queryType); err != nil {
+			return nil, errorsmod.Wrapf(sdkerrors.ErrInvalidRequest, "no data spec for cyclelist query type %s", queryType)
+		}
+	}
 	if err := k.keeper.Cyclelist.Clear(ctx, nil); err != nil {
 		return nil, err
 	}
